@@ -229,6 +229,17 @@ theorem cache_inventory :
       ∧ stateIntegralTable = [] ∧ stateBaseField = [] ∧ stateFieldBuilder = []
       ∧ stateFieldBuilderFromAtoms = ["_sliced_atoms"] ∧ statePotential = [] := by decide
 
+/-- **the cached computations read no mutable state** (generated from the method bodies, following the class's own methods and
+properties): besides their arguments, `_calculate_scattering_factor` and `_calculate_integral_table` read only constructor
+parameters (`_parametrization`, tolerances, step, order, taper) — attributes that the inventory above shows are never written after
+construction and have no setter.  Together with `cache_inventory` this is what justifies reading the computation as a function of
+the key's components in the two instance theorems (the global precision setting remains outside: "grid changes only"). -/
+theorem cached_computations_read_only_constructor_parameters :
+    readsScatteringFactor = ["_parametrization"]
+      ∧ readsQuadrature = ["_cutoff_tolerance", "_inner_cutoff_factor", "_integration_step", "_parametrization", "_quad_order", "_taper"]
+      ∧ (∀ x ∈ readsScatteringFactor, x ∉ stateScatteringFactor ∧ x ∉ stateFieldIntegrator)
+      ∧ (∀ x ∈ readsQuadrature, x ∉ stateQuadrature ∧ x ∉ stateFieldIntegrator) := by decide
+
 abbrev Grid := (Nat × Nat) × (Rat × Rat) × String
 
 /-- **C11 for infinite projection**: for every scattering-factor computation `f(symbol, gpts, sampling, device)`, every
